@@ -820,12 +820,13 @@ impl World {
                 }
             }
             Op::Report { pick, r, unknown } => {
-                let st = self.store();
-                let ps = Self::sorted_proxies(&st);
-                let addr = if *unknown || ps.is_empty() {
+                // reports may name any proxy of the universe, registered or not (and, rarely, a foreign address)
+                let uni = universe(&self.cfg);
+                let addr = if *unknown || uni.is_empty() {
                     format!("10.77.{}.1:7000", pick % 3)
                 } else {
-                    ps[(*pick % ps.len() as u64) as usize].clone()
+                    let (h, i) = uni[(*pick % uni.len() as u64) as usize];
+                    proxy_addr(h, i)
                 };
                 let reporter = format!("r{}", r);
                 let now = CLOCK_SECS.load(Ordering::SeqCst);
